@@ -94,6 +94,11 @@ func runC12(c *Ctx) error {
 			cases = append(cases, c12Case{MaxRetries: mr, Initial: 900 * ms, MaxI: 900 * ms, MNum: 1, MDen: 1, RFNum: 0, RFDen: 1, FailN: -1,
 				CancelInWait: 1, CancelAfter: 40 * ms, Class: "cancel-in-wait"})
 		}
+		// the context ends while MaxElapsedTime (far away) is set as well: the end of the context still ends the retries
+		cases = append(cases, c12Case{MaxRetries: mr, Initial: 5 * ms, MaxI: 5 * ms, MNum: 1, MDen: 1, RFNum: 0, RFDen: 1, FailN: -1, MaxElapsed: 3 * time.Second,
+			AttDur: 60 * ms, CancelInAtt: 1, Class: "cancel-in-attempt/backoff"})
+		cases = append(cases, c12Case{MaxRetries: mr, Initial: 900 * ms, MaxI: 900 * ms, MNum: 1, MDen: 1, RFNum: 0, RFDen: 1, FailN: -1, MaxElapsed: 5 * time.Second,
+			CancelInWait: 1, CancelAfter: 40 * ms, Class: "cancel-in-wait"})
 		// MaxElapsedTime passes
 		cases = append(cases, c12Case{MaxRetries: mr * 4, Initial: 20 * ms, MaxI: 20 * ms, MNum: 1, MDen: 1, RFNum: 0, RFDen: 1, MaxElapsed: 50 * ms, FailN: -1,
 			Class: "max-elapsed"})
